@@ -335,3 +335,83 @@ func VerifHarness_C09_length() {
 		verifAssert(b != nil, "frame-or-error")
 	}
 }
+
+func init() { verifRegister("C09_early", VerifHarness_C09_early) }
+
+// C09_early: a message that arrives early (number above the expected one) is kept and processed later, when the gap
+// has been closed - a second route into every handler. Any message type with symbolic content is sent one ahead,
+// the gap is then filled, and the kept message is replayed from the stash: nothing panics, the replay terminates
+// (checked unwinding; a hang candidate is decided by native replay), and a session still logged on afterwards
+// answers a TestRequest carrying the number expected at that moment.
+func VerifHarness_C09_early() {
+	r := verifNewSession(false, BeginStringFIX42)
+	T := ndInt("T", 20, 22)
+	r.setCounters(T, 3)
+	r.verifLoggedOnState(stInSession, T)
+	var early *Message
+	switch verifConc(ndInt("early-type", 0, 6)) {
+	case 0:
+		verifCase("early-heartbeat")
+		early = r.inbound("0", T+1)
+	case 1:
+		verifCase("early-testrequest")
+		early = r.inbound("1", T+1)
+		early.Body.SetString(tagTestReqID, "E")
+	case 2:
+		verifCase("early-resendrequest")
+		early = r.inbound("2", T+1)
+		early.Body.SetInt(tagBeginSeqNo, ndInt("begin", 0, 5))
+		early.Body.SetInt(tagEndSeqNo, ndInt("end", 0, 5))
+	case 3:
+		verifCase("early-sequencereset")
+		early = r.inbound("4", T+1)
+		early.Body.SetInt(tagNewSeqNo, ndInt("NewSeqNo", 0, 30))
+		if ndBool("gapfill") {
+			early.Body.SetBool(tagGapFillFlag, true)
+		}
+	case 4:
+		verifCase("early-logout")
+		early = r.inbound("5", T+1)
+	case 5:
+		verifCase("early-application")
+		early = r.appMessage(T + 1)
+	case 6:
+		verifCase("early-reject")
+		early = r.inbound("3", T+1)
+		early.Body.SetInt(tagRefSeqNum, ndInt("ref", 0, 5))
+	}
+	if ndBool("possdup") {
+		verifPossDup(early)
+	}
+	r.s.Incoming(r.s, fixIn{bytes: bytes.NewBuffer(early.build()), receiveTime: time.Now()})
+	r.pump()
+	r.drain()
+	if !r.s.IsLoggedOn() {
+		return
+	}
+	// the gap is closed: the kept message is taken from the stash and handled
+	g := r.inbound("4", T)
+	g.Body.SetInt(tagNewSeqNo, T+1)
+	g.Body.SetBool(tagGapFillFlag, true)
+	verifPossDup(g)
+	r.s.Incoming(r.s, fixIn{bytes: bytes.NewBuffer(g.build()), receiveTime: time.Now()})
+	r.pump()
+	r.drain()
+	if !r.s.IsLoggedOn() {
+		verifCase("kept-message-ended-the-logon")
+		return
+	}
+	verifCase("still-logged-on")
+	tr := r.inbound("1", r.st.NextTargetMsgSeqNum())
+	tr.Body.SetString(tagTestReqID, "PING")
+	r.s.Incoming(r.s, fixIn{bytes: bytes.NewBuffer(tr.build()), receiveTime: time.Now()})
+	r.pump()
+	ws := r.drain()
+	n := 0
+	for i := range ws {
+		if id, ok := ws[i].get(112); ws[i].is("0") && ok && string(id) == "PING" {
+			n++
+		}
+	}
+	verifAssert(n == 1, "next-well-formed-message-processed-after-early-message")
+}
